@@ -6,7 +6,40 @@ def fresh(name, tag):
     return E('ref', n='%s@%s' % (name, tag), dk='sym')
 
 
-def symexec(func, path, env0=None, inliner=None, depth=0):
+def _rebuild(e, ch, extra):
+    ne = E(e.k, e.op, ch, e.n, e.cv, e.nid, e.rec, e.dk, e.did, e.ty, extra)
+    if ne.k in ('bin', 'un', 'cond') and any(c is not o for c, o in zip(ch, e.ch)):
+        ne.cv = None
+    return ne
+
+
+def resolve(e, env):
+    """Value of expression e in the state env: locals are replaced by the (already resolved) values they
+    hold; when the path is executed with track_mem, a read of a memory cell the path has written yields
+    the written value, any other read stays symbolic and denotes the cell's INITIAL content.  Substituted
+    values are final: they are never re-interpreted against later memory states."""
+    if e is None:
+        return None
+    mem = env.get('__mem__') if isinstance(env, dict) else None
+    if mem is None:
+        return e.subst(env)
+
+    def res(x):
+        if x.k == 'ref':
+            v = env.get(x.s)
+            return v if v is not None and x.s != '__mem__' else x
+        ch = [res(c) for c in x.ch]
+        extra = res(x.extra) if isinstance(x.extra, E) else x.extra
+        nx = _rebuild(x, ch, extra) if (any(c is not o for c, o in zip(ch, x.ch)) or extra is not x.extra) else x
+        if nx.k in ('mem', 'idx') or (nx.k == 'un' and nx.op == '*'):
+            v = mem.get(nx.s)
+            if v is not None:
+                return v
+        return nx
+    return res(e)
+
+
+def symexec(func, path, env0=None, inliner=None, depth=0, track_mem=False):
     """Returns list of (event, env) where env maps the rendering of a local variable to
     the expression (over parameters, memory reads and call results) it holds *before* the
     event.  Assume pseudo-events carry the substituted condition in ev.rhs.
@@ -20,11 +53,30 @@ def symexec(func, path, env0=None, inliner=None, depth=0):
             for v in ev.args:
                 env[v] = fresh(v, 'loop%d' % ev.block)
             continue
-        out.append((ev, dict(env)))
+        snap = dict(env)
+        if track_mem:
+            snap['__mem__'] = dict(env.get('__mem__', {}))
+        out.append((ev, snap))
+        if track_mem and ev.kind == 'store' and not (ev.lhs.k == 'ref' and ev.lhs.dk in ('var', 'parm', 'svar')):
+            # strong update of a memory cell identified by its resolved lvalue (no aliasing between
+            # syntactically different cells is assumed: the rule that asks for track_mem states why)
+            mem = env.setdefault('__mem__', {})
+            vars_only = {k: v for k, v in env.items() if k != '__mem__'}
+            key = ev.lhs.subst(vars_only)
+            old = mem.get(key.s, key)
+            if ev.op == '=':
+                val = resolve(ev.rhs, env)
+            elif ev.op in ('++', '--'):
+                val = E('bin', op='+' if ev.op == '++' else '-', ch=[old, E('int', cv=1)])
+            else:
+                val = E('bin', op=ev.op[:-1], ch=[old, resolve(ev.rhs, env)])
+            mem = dict(mem); mem[key.s] = val
+            env['__mem__'] = mem
+            continue
         if ev.kind == 'store' and ev.lhs.k == 'ref' and ev.lhs.dk in ('var', 'parm', 'svar'):
             name = ev.lhs.s
             if ev.op == '=':
-                env[name] = ev.rhs.subst(env)
+                env[name] = resolve(ev.rhs, env) if track_mem else ev.rhs.subst(env)
             elif ev.op in ('++', '--'):
                 old = env.get(name, ev.lhs)
                 env[name] = E('bin', op='+' if ev.op == '++' else '-', ch=[old, E('int', cv=1)])
@@ -41,6 +93,3 @@ def symexec(func, path, env0=None, inliner=None, depth=0):
                     out.extend(sub)
     return out
 
-
-def resolve(e, env):
-    return e.subst(env) if e is not None else None
